@@ -353,7 +353,8 @@ def coq_eval(judge_mod, terms, workdir, shard=250, tag='cases', fn='judge', raw=
 # ---------------------------------------------------------------------------------------------
 # running the implementation
 
-class Timeout(Exception):
+class Timeout(BaseException):
+    # BaseException + a repeating timer: an `except Exception` in the code under test cannot swallow the time-out
     pass
 
 
@@ -370,7 +371,7 @@ def _init_worker():
 
 def _run_one(args):
     i, case, tmo = args
-    signal.setitimer(signal.ITIMER_REAL, tmo)
+    signal.setitimer(signal.ITIMER_REAL, tmo, 1.0)
     try:
         import numpy as np
         with np.errstate(all='ignore'):
